@@ -7,7 +7,7 @@ import core
 import progcheck
 import progdiff
 
-HEAVY = ("big_tables", "long_jumps", "big_bytes_tuple")
+HEAVY = ("big_tables", "long_jumps", "big_bytes_tuple", "extarg3")
 
 
 def ref_cats():
